@@ -12,9 +12,14 @@ PROP = dict(
                  "amd64 host with ADX and AVX-512; other code paths are decided by C09"],
     jobs=[
         dict(name="unary", pkg="c01", run="^TestC01_Unary$", shards=FIELDS, checks=(4000, 60000)),
-        dict(name="binary", pkg="c01", run="^TestC01_Binary$", shards=FIELDS, checks=(4000, 60000)),
+        dict(name="binary", pkg="c01", run="^TestC01_Binary$", shards=FIELDS, checks=(6000, 80000)),
         dict(name="vector", pkg="c01", run="^TestC01_Vector$", shards=FIELDS, checks=(700, 10000)),
         dict(name="regress", pkg="c01", run="^TestC01_Regress$", rapid=False),
+        # the property quantifies over configurations: the portable (purego) code paths are decided here too
+        # (C09 additionally runs these suites with ADX / AVX-512 switched off and compares all variants live)
+        dict(name="unary-purego", pkg="c01", run="^TestC01_Unary$", tags="purego", shards=FIELDS, checks=(2500, 40000)),
+        dict(name="binary-purego", pkg="c01", run="^TestC01_Binary$", tags="purego", shards=FIELDS, checks=(4000, 60000)),
+        dict(name="vector-purego", pkg="c01", run="^TestC01_Vector$", tags="purego", shards=FIELDS, checks=(400, 6000)),
         # exhaustive sweeps of the 31-bit fields: all q inputs of every unary op (+ Mul/Add/Sub by 16 constants)
         dict(name="exh-koalabear", pkg="c01", run="^TestC01_Exhaustive_koalabear$", rapid=False, tiers=("thorough",),
              seeds=(1, 16), timeout=(600, 3000), weight=10),
